@@ -101,7 +101,7 @@ theorem inv_step {p : Params} (hg : p.good = true) {s s' : St} (hi : Inv p s) (h
     · have hns : s.runner.sent = false := by
         cases hr : s.runner <;> simp [RPc.sent]
         exact hnd (Or.inl hr)
-      cases ev <;> simp [h8, hns]
+      cases ev <;> simp [h8, hns, TaskEv.cbs]
     · intro t'' hm e hpc
       simp only [List.mem_append, List.mem_cons] at hm
       have old : ∀ x, x ∈ s.tasks → x.pc = .handOver e → e ∈ s.returned :=
@@ -109,9 +109,9 @@ theorem inv_step {p : Params} (hg : p.good = true) {s s' : St} (hi : Inv p s) (h
       rcases hm with ((hm | hm | hm) | hm)
       · exact List.mem_append_left _ (old t'' (by rw [ht]; simp [hm]) hpc)
       · subst hm
-        cases hts <;> simp_all
+        cases hts <;> simp_all [TaskEv.rets]
       · exact List.mem_append_left _ (old t'' (by rw [ht]; simp [hm]) hpc)
-      · cases ev <;> simp at hm
+      · cases ev <;> simp [TaskEv.spawned] at hm
         subst hm; cases hpc
     · intro e he
       exact List.mem_append_left _ (h11 e he)
